@@ -179,7 +179,6 @@ def map_conc(case):
         nonlocal clock
         labels.append('(LAdv %s)' % Z(t))
         clock = max(clock, t)
-    seen_tick = False
     i = 0
     stats = dict(ins=0, dup=0, removed=0, sweeps=0)
     while i < len(log):
@@ -209,24 +208,29 @@ def map_conc(case):
                 labels.append('(LThr %d)' % t)
                 answers[t].append(k[1] == 'dup')
         elif p == 'dedup.cleanout.ticked':
-            T = parse_mono(k[0])
-            if T is None or T > e['ns']:
-                problems.append('tick time %s is later than the stamp taken after receiving it (%d)' % (k[0], e['ns']))
-            else:
-                adv(e['ns']); labels.append('(LTick %d %s)' % (G, Z(T))); seen_tick = True
+            # taken before Lock(), i.e. concurrently with a client's critical section: its position
+            # in the log says nothing about the client's time.Now().  The model receives the tick
+            # right before the cleaner's Lock (the tick step only moves the cleaner's own pc).
+            pass
         elif p == 'dedup.cleanout.locked':
             # the whole critical section of the sweep, if its end was logged
             j = i + 1; removed = []
             while j < len(log) and log[j]['p'] == 'dedup.cleanout.removed':
                 removed.append(int(log[j]['k'][0])); j += 1
-            if j < len(log) and log[j]['p'] == 'dedup.cleanout.unlock' and seen_tick:
+            if j < len(log) and log[j]['p'] == 'dedup.cleanout.unlock':
                 T = parse_mono(k[0])
-                labels.append('(LThr %d)' % G); adv(e['ns']); labels.append('(LThr %d)' % G); labels.append('(LThr %d)' % G)
-                events.append('(ESweep %d %s %s %s)' % (G, Z(T), Z(clock), nlist(removed)))
-                stats['removed'] += len(removed); stats['sweeps'] += 1
-                seen_tick = False
+                if T is None or T > e['ns']:
+                    problems.append('tick time %s is later than the stamp taken after receiving it (%d)' % (k[0], e['ns']))
+                else:
+                    if e['ns'] < clock:
+                        problems.append('clock oracle not monotone: sweep stamped at %d after a stamp at %d' % (e['ns'], clock))
+                    adv(e['ns'])
+                    labels.append('(LTick %d %s)' % (G, Z(T)))
+                    labels.append('(LThr %d)' % G); labels.append('(LThr %d)' % G); labels.append('(LThr %d)' % G)
+                    events.append('(ESweep %d %s %s %s)' % (G, Z(T), Z(clock), nlist(removed)))
+                    stats['removed'] += len(removed); stats['sweeps'] += 1
                 i = j + 1; continue
-            elif j < len(log) and log[j]['p'] not in ('dedup.cleanout.unlock',):
+            elif j < len(log):
                 problems.append('a stamp of another goroutine inside the sweep\'s critical section: ' + log[j]['p'])
             i = j; continue
         i += 1
